@@ -18,47 +18,57 @@ def oracles_():
 
 
 MANIFEST = {
-    "text": "Coq theorems (Properties_C03_types.v): for all integer types, decimal64 (fraction-digits 1..18) and boolean, "
-            "store succeeds iff the string is in the lexical language and the denoted value is in the value space/ranges "
-            "(int_store_iff_lexical, dec64_scale), canonical forms are RFC 7950 canonical and idempotent, equality iff equal "
-            "canonical strings, the sort callback is a strict total order; defects of the code are carried by the model with "
-            "refutation witnesses. Properties_C03_types2.v: the same for enumeration (store iff declared name, sort = strict "
-            "total order by descending value), bits (store iff white-space separated declared names without repetition, "
-            "canonical string = names in position order with single spaces, idempotent, equal bitmaps iff equal canonical "
-            "strings, memcmp order), binary (decode(encode d) = d, RFC 4648 texts accepted and canonical, length counted on "
-            "the octets, idempotent; canonical string = RFC 4648 text of the octets and equality iff equal canonical strings for "
-            "every accepted text since c0ee3aa, with the former pad-bits counter-example as regression), string length (counted in "
-            "characters: utf8len = number of ly_checkutf8 steps) and union (first accepting member, canonical string "
-            "idempotent, equality iff canonical within one member, REFUTED across members, sort = strict total order). "
-            "Tie: differential runs of the extracted models against lyd_value_validate/lyd_new_term/lyd_value_compare/"
-            "sorted insertion (T2, exhaustive over short strings), RFC oracles as search. The last sentence of the property "
-            "(source independence) is checked by the SourceIndep oracle (search, no proof): one lexical value of 33 "
-            "restricted types (all built-in types incl. identityref, leafref, instance-identifier, empty, typedef chains, "
-            "unions, and the ietf-inet-types / ietf-yang-types derived types) is offered as leaf, list key and leaf-list "
-            "through XML, JSON string and literal, lyd_new_term, lyd_new_list, lyd_new_path value / key predicate / "
-            "leaf-list predicate, lyd_find_path, lyd_value_validate, lyd_change_term, a schema default compiled on the fly, "
-            "lyd_dup_single and a LYB round trip; all must agree on the verdict and on the canonical string except for the "
-            "format-specific rules written down in SourceIndep.expect() with their RFC sections. The derived types of "
-            "ietf-inet-types / ietf-yang-types (ipv4/ipv6 address with and without zone, ip-address, ipv4/ipv6/ip-prefix for "
-            "every prefix length, date-and-time, hex-string, phys-address, mac-address, uuid) and identityref are checked by the "
-            "DerivedRfc oracle (search) against a Python reference written from RFC 6991, RFC 5952 and RFC 3339: canonical "
-            "string, idempotence, equality and duplicate detection modulo canonical form, insertion-order independence; the "
-            "host-bit masking of ipv4-prefix has a value-level Coq model (C03_ipv4_prefix_*, T2 t2-ip4p). The canonical string of "
-            "instance-identifier / node-instance-identifier has the model IidCanon.v on top of PathQuote.v (module printed "
-            "where it changes, key / leaf-list / position predicates, quote chosen per value): C03_iid_parse_print, "
-            "C03_iid_canon_idempotent, C03_iid_eq_iff_canon for every path whose values hold one quote kind, "
-            "C03_iid_hoisted_quote_refuted as regression of the shared-quote variant; T2 t2-iid against lyd_new_term. For "
-            "unions whose members' canonical forms are separated (in particular: only the first member is an integer type) "
-            "the canonical string is stored as the same value and equality iff equal canonical strings holds "
-            "(C03_union_canon_idempotent_separated, C03_union_eq_iff_canon_separated, C03_union_separated_ints_first).",
-    "note": "Modelled C: ly_parse_int/uint (strtoll model), lyplg_type_parse_dec64, decimal64 printing, lyplg_type_validate_range, "
-            "boolean store; lyplg_type_store_enum/sort_enum, bits_str2bitmap/bitmap2items/items2canon/compare/sort, "
-            "binary_base64_newlines/validate/decode/encode + store/compare/sort, ly_utf8len + string length check (UTF-8 "
-            "check from Utf8.v), union_find_type/compare_union/sort_union over int/enum/string members. Not modelled "
-            "(searched by SourceIndep / Types2Rfc only): patterns (C18), identityref, leafref, instance-identifier, "
-            "inet/yang derived types, LYB value encoding, hints handling of the JSON parser. Trusted for SourceIndep: the "
-            "exception list of its judge (RFC 7951 6.1/6.3/6.9 literals, 6.8/6.11 and RFC 7950 9.10.3/9.13.2 prefixes, "
-            "RFC 7951 6.10 unions, RFC 7950 9.2.1 hex/octal defaults, white-space-only XML content, non-YANG characters).",
+    "text": "Coq theorems over hand-written as-coded models, all Closed under the global context. Properties_C03_types.v: "
+            "integers (C03_int_store_iff_lexical: stored iff the text is, between optional isspace() bytes and cut at a NUL, "
+            "[+-]digits denoting a value inside the type bounds and the range parts - the two departures from the strict RFC "
+            "language are C03_int_strict_rfc_refuted; _canon_store, _canon_idempotent, _eq_iff_canon, _sort_total_order), the "
+            "range/length check (C03_range_spec for sorted non-empty part lists, _unsorted_refuted), boolean (4 theorems) and "
+            "decimal64 for fraction-digits >= 1 (C03_dec64_scale / _parse_scale / _complete, _canon_is_rfc, _canon_idempotent, "
+            "_canon_store, _eq_iff_canon for int64 values, _sort_total_order; _sign_needs_digit is the regression of the fixed "
+            "defects f731599, f933623). Properties_C03_types2.v: enumeration (store iff declared name given unique names; sort = "
+            "strict total order by DEscending value on a well-formed enum), bits (under bits_wf / bits_names_ok: store iff "
+            "isspace-separated declared names without repetition, canonical = names in position order, idempotent, equal "
+            "bitmaps iff equal canonical strings on declared positions, memcmp order), binary (C03_binary_decode_encode, "
+            "_canonical_accepted, _length_counts_octets, _canon_is_rfc4648, _canon_idempotent, _eq_iff_canon for every accepted "
+            "text since fix c0ee3aa, _pad_bits_regression), string length (C03_strlen_counts_chars / _store_iff for byte "
+            "strings: length in characters = ly_checkutf8 steps; _not_bytes), union over int/enum/string members "
+            "(C03_union_store_first, string-level _canon_idempotent, _eq_implies_canon, _eq_iff_canon_same_member, "
+            "_eq_iff_canon_refuted across members = known finding union-member-eq; full idempotence and eq iff canon under "
+            "union_separated: _canon_idempotent_separated, _eq_iff_canon_separated, _separated_ints_first; _sort_total_order on "
+            "well-typed values), ipv4-prefix host bits at value level only (C03_ipv4_prefix_host_bits_zero, _canon_idempotent, "
+            "_eq_iff_canon_partial, _ends: no text form), and the canonical STRING of instance-identifier / "
+            "node-instance-identifier (IidCanon.v on PathQuote.v: C03_iid_parse_print, _canon_idempotent, _eq_iff_canon for "
+            "paths with identifier names whose predicate values hold one quote kind; _hoisted_quote_refuted is a regression "
+            "witness of a shared-quote printer variant, not a defect of the tree). Tie (T2): the extracted models and the C "
+            "library answer the same generated cases through lyd_value_validate / lyd_new_term / lyd_value_compare / sorted "
+            "insertion (exhaustive over short strings for int8/uint8/decimal64 only, boundary-dense and random otherwise). "
+            "Search only (no proof): RfcStoreOracle and Types2Rfc (independent Python reading of RFC 7950 section 9 / RFC 4648), "
+            "JsonNumDenote (slice jsonnum: the text lyjson_number() hands to the plugins denotes the written JSON number), "
+            "SourceIndep (the last sentence of the property: one lexical value of about 35 restricted types - built-in types "
+            "incl. identityref, leafref, instance-identifier, empty, typedef chains, unions, inet/yang derived types - offered "
+            "as leaf, list key and leaf-list through XML, JSON string and literal, lyd_new_term, lyd_new_list, lyd_new_path value "
+            "and predicates, lyd_find_path, lyd_value_validate, lyd_change_term, a schema default, lyd_dup_single and LYB must "
+            "give one verdict and one canonical string, except for the format rules listed with their RFC sections in "
+            "SourceIndep.expect()) and DerivedRfc (inet/yang derived types, binary, identityref, (node-)instance-identifier "
+            "against a Python reference from RFC 6991 / 5952 / 3339 / 4648: canonical string, idempotence incl. "
+            "lyd_change_term_canon and duplication into a second context, equality and duplicate detection modulo canonical "
+            "form, insertion-order independence). Listed known findings: union-member-eq, dt-year-10000, dt-day-overflow, "
+            "dt-sort-eq, idref-empty-prefix, ip6-embedded-v4-leading-zero; the earlier ones are recorded as fixed in "
+            "known_findings*.json.",
+    "note": "Modelled (transcribed by hand, tied by T2 only): ly_parse_int/uint (own strtoll/strtoull model), "
+            "lyplg_type_parse_dec64, decimal64 printing, lyplg_type_validate_range, boolean store; lyplg_type_store_enum/"
+            "sort_enum, bits_str2bitmap/bitmap2items/items2canon/compare/sort (canonical string as a filter over the "
+            "position-ordered compiled array), binary_base64_newlines/validate/decode/encode/is_canonical + store/compare/sort, "
+            "ly_utf8len + string length check (UTF-8 check from Utf8.v), union_find_type/compare_union/sort_union over "
+            "int/enum/string members only, ipv4prefix_zero_host (mask loop; inet_pton/inet_ntop not modelled), "
+            "instanceid_path2str / node_instanceid_path2str in the JSON format with a reader restricted to the printed shapes "
+            "(no schema resolution). Oracle level only: patterns (C18), identityref, leafref, instance-identifier resolution, "
+            "the inet/yang derived types incl. date-and-time, hints handling of the JSON parser, LYB value encoding (round trip "
+            "only), schema-default entry point (hex/octal integers excepted by RFC 7950 9.2.1). Outside everything: values "
+            "with NUL bytes or non-YANG characters are compared among API sources only; time-zone dependent canonical form of "
+            "date-and-time is checked with TZ=UTC. Trusted: the Python references and the exception list of SourceIndep "
+            "(RFC 7951 6.1/6.3/6.9 literals, 6.8/6.11 and RFC 7950 9.10.3/9.13.2 prefixes, RFC 7951 6.10 unions, RFC 7950 9.2.1 "
+            "defaults, white-space-only XML content, inet_ntop mixed notation for ::ffff:a.b.c.d and ::a.b.c.d).",
     "technique": "Coq proof over hand-written model + differential correspondence (extracted OCaml vs C) + RFC oracle + "
                  "cross-source agreement oracle",
 }
